@@ -379,6 +379,9 @@ func RunCheck(p *Prop, tier string) int {
 			bin, env := VariantEnv(v.Variant)
 			cmd := exec.Command(filepath.Join(binDir, "vcheck-"+bin), "--replay", path, "--mem", fmt.Sprint(mem))
 			cmd.Env = append(os.Environ(), env...)
+			if v.Failure.Kind == "variant-mismatch" {
+				cmd.Env = append(cmd.Env, "VERIF_GOLDEN="+filepath.Join(work, "golden.json"))
+			}
 			outb, _ := cmd.CombinedOutput()
 			if strings.Contains(string(outb), "REPLAY-RESULT FAIL key="+k+"\n") {
 				ok++
